@@ -22,6 +22,22 @@ type refModel struct {
 	curDir         string
 	pending        string // property to blame at the next dump
 	opens          int
+	batchStart     int
+	batchWrites    []histWrite
+	history        []histEntry       // acknowledged mutations of the current directory, in order
+	base           map[string][]byte // mapping before the first of them
+}
+
+// ack records an acknowledged mutation (a Put, a Delete that wrote, a committed batch).
+func (m *refModel) ack(r *EngineRunner) {
+	st := make(map[string][]byte, len(m.m))
+	for k, v := range m.m {
+		st[k] = v
+	}
+	if m.base == nil {
+		m.base = map[string][]byte{}
+	}
+	m.history = append(m.history, histEntry{start: r.opStart, ack: r.shadow.count(), state: st, writes: r.curWrites})
 }
 
 func newRefModel() *refModel {
@@ -56,6 +72,7 @@ func (m *refModel) put(r *EngineRunner, k, v []byte, err error) {
 		return
 	}
 	m.m[string(k)] = cp(v)
+	m.ack(r)
 }
 
 func (m *refModel) del(r *EngineRunner, k []byte, err error) {
@@ -67,6 +84,9 @@ func (m *refModel) del(r *EngineRunner, k []byte, err error) {
 		return
 	}
 	delete(m.m, string(k))
+	if len(r.curWrites) > 0 {
+		m.ack(r)
+	}
 }
 
 func (m *refModel) get(r *EngineRunner, k, v []byte, err error) {
@@ -236,6 +256,8 @@ func (m *refModel) checkDump(r *EngineRunner, d map[string][]byte) {
 }
 
 func (m *refModel) batchBegin(sync bool) {
+	m.batchStart = -1
+	m.batchWrites = nil
 	m.bm = map[string]*[]byte{}
 	m.inBatch = true
 	m.batchCommitted = false
@@ -258,6 +280,7 @@ func (m *refModel) bput(r *EngineRunner, k, v []byte, err error) {
 	}
 	c := cp(v)
 	m.bm[string(k)] = &c
+	m.noteBatchOp(r)
 }
 
 func (m *refModel) bdel(r *EngineRunner, k []byte, err error) {
@@ -275,6 +298,17 @@ func (m *refModel) bdel(r *EngineRunner, k []byte, err error) {
 		return
 	}
 	m.bm[string(k)] = nil
+	m.noteBatchOp(r)
+}
+
+// noteBatchOp remembers the writes a staging operation caused (a mid-batch flush)
+func (m *refModel) noteBatchOp(r *EngineRunner) {
+	if len(r.curWrites) > 0 {
+		if m.batchStart < 0 {
+			m.batchStart = r.opStart
+		}
+		m.batchWrites = append(m.batchWrites, r.curWrites...)
+	}
 }
 
 func (m *refModel) bget(r *EngineRunner, k, v []byte, err error) {
@@ -326,6 +360,14 @@ func (m *refModel) commit(r *EngineRunner, err error) {
 			m.m[k] = *pv
 		}
 	}
+	// the batch is one mutation; it began with its first flush, which may precede Commit
+	saved := r.opStart
+	if m.batchStart >= 0 && m.batchStart < r.opStart {
+		r.opStart = m.batchStart
+	}
+	r.curWrites = append(m.batchWrites, r.curWrites...)
+	m.ack(r)
+	r.opStart = saved
 	m.pending = "C05"
 }
 
